@@ -789,3 +789,25 @@ Proof.
     destruct (vstep E s o) as [s' out] eqn:Hstep. simpl. by eapply supply_full_step. }
   apply H. split; [done|]. intros n t Ht. simpl in Ht. by rewrite lookup_empty in Ht.
 Qed.
+
+(* ---------- the tracker stores do not depend on the node ---------- *)
+
+Lemma transition_node_independent nl nl' s n : transition nl s n = transition nl' s n.
+Proof. reflexivity. Qed.
+
+Lemma end_block_node_independent nl nl' names : forall s, end_block nl s names = end_block nl' s names.
+Proof.
+  induction names as [|n r IH]; intros s; simpl; [done|].
+  rewrite (transition_node_independent nl nl'). destruct (transition nl' s n) as [s1 o1]. by rewrite IH.
+Qed.
+
+Lemma vstep_sim E s o o' : op_sim o o' -> vstep E s o = vstep E s o'.
+Proof.
+  destruct o, o'; simpl; try (intros ->; done); try done.
+  intros ->. unfold vstep. simpl. apply end_block_node_independent.
+Qed.
+
+Theorem state_node_independent E ops ops' : Forall2 op_sim ops ops' -> forall s, run E s ops = run E s ops'.
+Proof.
+  induction 1 as [|o o' r r' Ho _ IH]; intros s; [done|]. simpl. rewrite (vstep_sim E s o o' Ho). apply IH.
+Qed.
